@@ -5,7 +5,10 @@
  * Oracles: no crash / sanitizer report, no hang (20 s), and if EVERY API call including the final
  * close reported success then the resulting file is byte-identical to the fault-free one (and, for
  * the read workload, the data read is identical).
- * Keys: fault-crash:<workload>:<function>, fault-hang:<workload>, fault-silent:<workload>:<call kind>.
+ * Keys: a failure whose root cause is in the table ROOTS below is reported under that root cause
+ * (fault-silent:<root cause> / fault-crash:<root cause>): the child records the library call chain in which the
+ * first fault fired (<errfile>.stk) and the table names the function that drops the failure.  Everything else keeps the
+ * generic keys fault-crash:<workload>:<function>, fault-hang:<workload>, fault-silent:<workload>:<api>:<call kind>.
  * Build: needs --wrap (props.py wrap=True).
  */
 #include "wrap.h"
@@ -14,6 +17,61 @@
 #include <sys/wait.h>
 #include <signal.h>
 #include <fcntl.h>
+#include <execinfo.h>
+#include <sanitizer/common_interface_defs.h>
+
+/* child side: the return addresses of the stdio call in which the first fault fires go to <errfile>.stk; the parent (same image,
+   the child is a fork) turns them into the chain of library functions, innermost first, '<' separated, only when it has
+   a failure to report (symbolising in every child costs ~0.5 s per case) */
+static char stk_path[700];
+static void record_fault_stack(void)
+{
+    void *pc[48]; int depth = backtrace(pc, 48);
+    int fd = open(stk_path, O_WRONLY | O_CREAT | O_TRUNC, 0644);
+    if (fd >= 0) { if (write(fd, pc, sizeof(void *) * (size_t)depth) < 0) {} close(fd); }
+}
+static void read_fault_chain(const char *errpath, char *out, size_t cap)
+{
+    void *pc[48]; char sp[700]; size_t n = 0; int started = 0; out[0] = 0;
+    snprintf(sp, sizeof sp, "%s.stk", errpath);
+    int fd = open(sp, O_RDONLY); if (fd < 0) return;
+    long got = read(fd, pc, sizeof pc); close(fd);
+    for (int i = 0; i < (int)(got / (long)sizeof(void *)) && n + 130 < cap; i++) {
+        char fn[128]; fn[0] = 0; __sanitizer_symbolize_pc((char *)pc[i] - 1, "%f", fn, sizeof fn);
+        if (!started) { if (strncmp(fn, "__wrap_", 7) == 0) { started = 1; n += (size_t)snprintf(out + n, cap - n, "%s", fn + 7); } continue; }
+        if (strncmp(fn, "run_", 4) == 0 || strcmp(fn, "child_run") == 0) break;
+        n += (size_t)snprintf(out + n, cap - n, "<%s", fn[0] ? fn : "?");
+    }
+}
+
+/* root causes: a failure is attributed to the first row whose conditions all hold.
+   what: 's' silent, 'c' crash/exit; chain: substring of the fault call chain (inlined callers do not appear in it, so rows name
+   the innermost function that identifies the path); crashfn: substring of the crashing function ("" = any) */
+static const struct { char what; const char *chain, *crashfn, *root; } ROOTS[] = {
+    {'c', "HXcreate",                     "HXcreate",           "hxcreate-error-path-double-free"},
+    {'c', "HXPwrite",                     "hi_close_stdio",     "hxpwrite-retry-closes-null-stream"},
+    {'c', "",                             "libjpeg-error_exit", "dfjpeg-exit-on-write-error"},
+    {'c', "Hlength<hdf_read_vars",        "",                   "hdf-read-vars-ignores-hlength-failure"},
+    {'c', "",                             "DFANIlocate",        "dfan-open-failure-tested-against-zero"},
+    {'c', "hdf_get_sdc",                  "hdf_get_sdc",        "hdf-get-sdc-double-free"},
+    {'c', "hdf_get_pred_str_attr",        "",                   "hdf-read-ndgs-ignores-pred-str-attr-failure"},
+    {'s', "hdf_get_pred_str_attr",        "",                   "hdf-read-ndgs-ignores-pred-str-attr-failure"},
+    {'s', "hdf_vg_clobber<hdf_cdf_clobber", "",                 "hdf-cdf-clobber-ignores-hdf-vg-clobber"},
+    {'s', "Hlength<hdf_read_vars",        "",                   "hdf-read-vars-ignores-hlength-failure"},
+    {'s', "Hsetlength<Hwrite",            "",                   "hwrite-ignores-hsetlength"},
+    {'s', "HIwrite2read",                 "",                   "hbitread-ignores-hiwrite2read"},
+    {'s', "Hclose<DFGRIaddimlut",         "",                   "dfgriaddimlut-ignores-hclose"},
+    {'s', "fopen<HXcreate",               "",                   "hxcreate-truncates-on-open-failure"},
+    {'s', "Hlength<GRwriteimage",         "",                   "grwriteimage-hlength-failure-as-new-image"},
+    {'s', "<hdf_close<",                  "",                   "hdf-close-skips-sdd-record-count"},
+    {'s', "HIupdate_version<Hclose",      "",                   "hclose-ignores-hiupdate-version"},
+};
+static const char *root_cause(char what, const char *chain, const char *crashfn)
+{
+    for (size_t i = 0; i < sizeof ROOTS / sizeof ROOTS[0]; i++)
+        if (ROOTS[i].what == what && strstr(chain, ROOTS[i].chain) && (!ROOTS[i].crashfn[0] || strstr(crashfn, ROOTS[i].crashfn))) return ROOTS[i].root;
+    return NULL;
+}
 
 static long N[NWORKLOADS], CUM[NWORKLOADS + 1];
 static unsigned long refsum[NWORKLOADS];
@@ -38,9 +96,11 @@ static int child_run(int w, long fail_at, int sticky, const char *path, const ch
         close(pfd[0]);
         int efd = open(errpath, O_WRONLY | O_CREAT | O_TRUNC, 0644); if (efd >= 0) { dup2(efd, 2); close(efd); }
         unlink(path);
+        { char side[700]; snprintf(side, sizeof side, "%s.x", path); unlink(side); }   /* external file of workload h_ext */
         wr_enabled = 0;
         if (WORKLOADS[w].prep && WORKLOADS[w].prep(path) == FAIL) _exit(3);
         wr_reset(); wr_enabled = 1; wr_fail_at = fail_at; wr_sticky = sticky;
+        snprintf(stk_path, sizeof stk_path, "%s.stk", errpath); unlink(stk_path); wr_on_first_fault = record_fault_stack;
         alarm(20);
         int nf = WORKLOADS[w].run(path);
         wr_enabled = 0;
@@ -71,7 +131,7 @@ static void crash_func(const char *errpath, char *out, size_t n)
         if (shown < 14 && (strstr(line, "ERROR") || strstr(line, "runtime error") || (strchr(line, '#') && strstr(line, " in ")))) { printf("INFO asan: %s", line); shown++; }
         char *in = strstr(line, " in "), *rp = strstr(line, "/hdf/src/") ? strstr(line, "/hdf/src/") : strstr(line, "/mfhdf/");
         if (line[0] == ' ' && strchr(line, '#') && in && rp && strcmp(out, "unknown") == 0) { char fn[128]; if (sscanf(in + 4, "%127s", fn) == 1) snprintf(out, n, "%s", fn); }
-        if (strstr(line, "runtime error")) { char *c = strrchr(line, '/'); (void)c; }
+        if (strstr(line, "Output file write error") && strcmp(out, "unknown") == 0) snprintf(out, n, "libjpeg-error_exit");   /* jpeg_std_error: message + exit() */
     }
     __real_fclose(f);
 }
@@ -90,6 +150,7 @@ static void init_counts(void)
         else { N[w] = res[2]; refsum[w] = (unsigned long)res[3]; }
         char keep[640]; snprintf(keep, sizeof keep, "%s.%d", hk_tmp("ref.hdf"), w);
         rename(ref, keep);
+        { char side[700], keeps[700]; snprintf(side, sizeof side, "%s.x", ref); snprintf(keeps, sizeof keeps, "%s.x", keep); rename(side, keeps); }
         CUM[w + 1] = CUM[w] + 2 * N[w];
     }
     inited = 1;
@@ -108,12 +169,14 @@ static void run_case(int c)
     long res[4] = {0, 0, 0, 0};
     int rc = child_run(w, k, sticky, path, err, res);
     char kind = kinds[w][k] ? kinds[w][k] : '?';
+    char chain[1100]; chain[0] = 0;
     hk_stat("fault_runs", 1);
     if (rc == 2) { hk_fail("fault-hang", "workload %s call %ld (%c) sticky=%d", WORKLOADS[w].name, k, kind, sticky); return; }
     if (rc == 1) {
-        char fn[128], key[256]; crash_func(err, fn, sizeof fn);
-        snprintf(key, sizeof key, "fault-crash:%s:%s", WORKLOADS[w].name, fn);
-        hk_fail(key, "workload %s call %ld (%c) sticky=%d: child crashed / sanitizer report", WORKLOADS[w].name, k, kind, sticky);
+        char fn[128], key[256]; crash_func(err, fn, sizeof fn); read_fault_chain(err, chain, sizeof chain);
+        const char *root = root_cause('c', chain, fn);
+        if (root) snprintf(key, sizeof key, "fault-crash:%s", root); else snprintf(key, sizeof key, "fault-crash:%s:%s", WORKLOADS[w].name, fn);
+        hk_fail(key, "workload %s call %ld (%c) sticky=%d: child crashed / exited / sanitizer report in %s; fault fired in %s", WORKLOADS[w].name, k, kind, sticky, fn, chain[0] ? chain : "?");
         return;
     }
     if (res[1] == 0) { hk_stat("fault_not_reached", 1); return; } /* the faulted call index was not reached (earlier divergence) */
@@ -124,9 +187,16 @@ static void run_case(int c)
     int same = (na == nb && na >= 0 && memcmp(a, b, (size_t)na) == 0);
     if (WORKLOADS[w].reads_only) same = same && ((unsigned long)res[3] == refsum[w]);
     free(a); free(b);
+    if (same) {   /* the external file <path>.x (workload h_ext), when the fault-free run made one */
+        char side[700], keeps[700]; snprintf(side, sizeof side, "%s.x", path); snprintf(keeps, sizeof keeps, "%s.x", keep);
+        long xa = file_bytes(side, &a), xb = file_bytes(keeps, &b);
+        if (xb >= 0) { same = (xa == xb && memcmp(a, b, (size_t)xa) == 0); if (!same) { na = xa; nb = xb; } }
+        free(a); free(b);
+    }
     if (!same) {
-        char key[256]; snprintf(key, sizeof key, "fault-silent:%s:%s:%c", WORKLOADS[w].name, fault_api[0] ? fault_api : "?", kind);
-        hk_fail(key, "workload %s: call %ld (%c) failed (sticky=%d), every API call incl. the close returned success, but the result differs from the fault-free run (file %ld vs %ld bytes)", WORKLOADS[w].name, k, kind, sticky, na, nb);
+        char key[256]; read_fault_chain(err, chain, sizeof chain); const char *root = root_cause('s', chain, "");
+        if (root) snprintf(key, sizeof key, "fault-silent:%s", root); else snprintf(key, sizeof key, "fault-silent:%s:%s:%c", WORKLOADS[w].name, fault_api[0] ? fault_api : "?", kind);
+        hk_fail(key, "workload %s: call %ld (%c) in %s failed (sticky=%d), every API call incl. the close returned success, but the result differs from the fault-free run (file %ld vs %ld bytes); fault fired in %s", WORKLOADS[w].name, k, kind, fault_api[0] ? fault_api : "?", sticky, na, nb, chain[0] ? chain : "?");
     }
     else hk_stat("fault_benign", 1);
 }
